@@ -291,6 +291,9 @@ def profile_for(pid, tier):
         P["ops"].update({"regenerate": 9, "undo": 2})
         P["sel_bias"] = {"term": 0.25, "or": 0.2, "and": 0.25, "not": 0.3}
         P["sel_depth"] = 3
+        P["require_regenerate"] = 0.9
+        G["nest"] = 0.6
+        G["addr_styles"] = {"str": 4, "tuple": 4, "mixed": 0}
         G["kinds"].update({"vmap": 1, "repeat": 1, "switch": 1, "mask": 1})
     elif pid == "C03":
         P["ops"].update({"importance": 10, "update": 1})
@@ -363,6 +366,12 @@ def gen_session(session_seed, pid, tier, profile=None):
         if rng.random() < 0.3:
             perts[k] = 0
     node = gen.gen_program_filtered(rng, P["gen"], P["allowed_features"])
+    if P.get("require_regenerate", 0.0) > 0:
+        # most sessions of this profile must be able to run Regenerate at all
+        for _ in range(60):
+            if accepts_regenerate(node) or rng.random() > P["require_regenerate"]:
+                break
+            node = gen.gen_program_filtered(rng, P["gen"], P["allowed_features"])
     programs = [node]
     if rng.random() < P["decoy"]:
         dg = gen.default_profile()
